@@ -20,7 +20,10 @@ import symtrace_sgp4  # noqa: E402  (static lists of the SGP4 stage-equivalence 
 EQUIV.update(symtrace_sgp4.EQUIV_SGP4)
 RULE = ("element sets from the structured TLE generator (regimes: operational LEO, near-earth incl. e<=1e-4, i near 0/180, "
         "critical inclination, negative/large B*, plus every field over its printable range) and the repo's own test TLEs; "
-        "times epoch + {0, <=1 d, <=60 d}; every named intermediate of initialisation and propagation is compared "
+        "epochs at the edges of the range 1969-2056 (two-digit years 69, 70, 99, 00, 01, 55, 56 each drawn explicitly, day of year at "
+        "both ends of the year, leap day, day after February); times epoch + {0, <=1 d, <=60 d, ends of the +-60 d window} in every "
+        "representation (datetime64[ns|us|ms|s], naive, UTC-aware, offset-aware), measured from the epoch as PRINTED (civil year by "
+        "the TLE convention 57-99 -> 19xx, 00-56 -> 20xx, decoded by the harness, not by pyorbital); every named intermediate of initialisation and propagation is compared "
         "(model driver vs pyorbital) at 1e-11 relative; the oracle compares pyorbital with the published model "
         "(Spec.Str3 on Float) at 1 mm / 1 um/s where a/a0 in [1/2, 2]; distinct = (tle text, minutes)")
 ASSUMPTIONS = ["IEEE-754 rounding and libm/numpy ulp differences are not modelled by the real-number theorems; the 1 mm, "
